@@ -34,6 +34,7 @@ def real(x, ab):
 
 
 _SHARED = {}
+_OWNED = {}
 
 
 def shared(key, mk):
@@ -63,7 +64,16 @@ def test_trapezoid(rep, combo, glob, reuse=True):
     try:
         grid = shared(('trapezoid', bnd, tuple(a), tuple(b)), lambda: TrapezoidalGrid(a=a, b=b, boundary=bnd)) if reuse else TrapezoidalGrid(a=a, b=b, boundary=bnd)
         with impl.quiet():
-            grid.setCurrentArea(start, end, lv)
+            if reuse:
+                # the arrays describing the sub-box are kept by the caller and rewritten in place for every sub-box (as the adaptive strategies
+                # do with the start / end arrays of their area objects)
+                S, E, L = _OWNED.setdefault(('trapezoid', bnd, tuple(a), tuple(b)), (np.zeros(D), np.zeros(D), [0] * D))
+                S[:] = start
+                E[:] = end
+                L[:] = lv
+                grid.setCurrentArea(S, E, L)
+            else:
+                grid.setCurrentArea(start, end, lv)
             pts, w = grid.get_points_and_weights()
             n_ann = [int(x) for x in grid.levelToNumPoints(lv)]
     except Exception as ex:
